@@ -588,7 +588,7 @@ func lightMedium(c *Ctx, prop string, undo bool, collect ...string) {
 	if undo {
 		ub = 1
 	}
-	fam := &LightFamily{Nmax: 64, UndoBud: ub, Prop: prop, RemMode: rm}
+	fam := &LightFamily{Nmax: 1 << 20, UndoBud: ub, Prop: prop, RemMode: rm}
 	if len(collect) > 0 {
 		fam.Collect = collect[0]
 	}
@@ -843,6 +843,26 @@ func lightMedium(c *Ctx, prop string, undo bool, collect ...string) {
 			}
 		}
 		c.Cov.Bound["very_tall"] = fmt.Sprintf("N=%v, aligned halves / quarters / near-halves deleted, 0,1,3 additions, then the first survivor; %d histories", vtNs, len(jobs)-before)
+	}
+	// huge blocks: a single block with 65535 / 65536 / 65537 additions (16-bit addition counts wrap
+	// here), on an empty accumulator and on a small one with an empty root to write over
+	{
+		before := len(jobs)
+		for _, k := range []int{1<<16 - 1, 1 << 16, 1<<16 + 1} {
+			kr := []int{}
+			if prop != "C11" {
+				kr = []int{0, k - 1}
+			}
+			h1 := []Op{{Kind: "block", Adds: k, Rem: kr}}
+			h2 := []Op{{Kind: "block", Adds: 3, Rem: kr[:0]}, {Kind: "block", Dels: []int{2}, Adds: k, Rem: kr}}
+			for _, h := range [][]Op{h1, h2} {
+				if undo {
+					h = append(h, Op{Kind: "undo"})
+				}
+				jobs = append(jobs, job{h})
+			}
+		}
+		c.Cov.Bound["huge_blocks"] = fmt.Sprintf("one block of 65535 / 65536 / 65537 additions on an empty and on a three-leaf accumulator; %d histories", len(jobs)-before)
 	}
 	var steps, evals int64
 	ok := parallelFor(c, len(jobs), func(i int) {
